@@ -9,7 +9,7 @@ import re
 from ..astutil import call_attr, calls_in, guard_facts, unparse, walk_local
 from ..cfg import CFG
 from ..report import Finding, Report
-from ..srcindex import AnalysisError, Index
+from ..srcindex import AnalysisError, Index, raw_funcs
 
 LICM = "xdsl/transforms/loop_invariant_code_motion.py"
 CFH = "xdsl/transforms/control_flow_hoist.py"
@@ -55,7 +55,7 @@ def check(idx: Index, rep: Report, tier: str) -> str:
     else:
         r.fail(h.fq, Finding("C16.R2", h.fq, "terminator-hoisted", "hoist_all must skip terminators", h.loc))
     n = 0
-    for fn in idx.module(CFH).functions.values():
+    for fn in raw_funcs(idx.module(CFH)):
         for c in calls_in(fn.node):
             if call_attr(c) == "hoist_all" and fn.name != "hoist_all":
                 n += 1
